@@ -445,12 +445,29 @@ func (c *client) Replica(ctx context.Context, _ ...grpc.CallOption) (protoReplic
 		t: t, sctx: sctx, cctx: ctx,
 		reqCh: make(chan *protoReplicaV1.ReplicaRequest), respCh: make(chan *protoReplicaV1.ReplicaResponse),
 		closeSend: make(chan struct{}), broken: make(chan struct{}), serverDone: make(chan struct{}),
+		inLoop: make(chan struct{}),
 	}
 	t.obs(func() { t.streams = append(t.streams, s) })
 	go func() {
 		defer close(s.serverDone)
 		s.serverErr = t.handler.Replica(&serverStream{s: s})
 	}()
+	// the stream counts as open once its handler has resolved the partition and waits for the first request (or has
+	// given up): no later event of the driver can fall into the handler's set-up
+	for waiting := true; waiting; {
+		var grace <-chan time.Time
+		if t.w.hasParkedPut() {
+			grace = time.After(inflightGrace)
+		}
+		select {
+		case <-s.inLoop:
+			waiting = false
+		case <-s.serverDone:
+			waiting = false
+		case <-grace:
+			t.w.releaseParkedPut()
+		}
+	}
 	return &clientStream{s: s}, nil
 }
 
@@ -465,6 +482,8 @@ type stream struct {
 	serverErr  error
 	closeOnce  sync.Once
 	breakOnce  sync.Once
+	inLoop     chan struct{} // closed when the handler asks for its first request
+	loopOnce   sync.Once
 	reqLost    bool
 }
 
@@ -625,6 +644,7 @@ type serverStream struct {
 func (ss *serverStream) Context() context.Context { return ss.s.sctx }
 
 func (ss *serverStream) Recv() (*protoReplicaV1.ReplicaRequest, error) {
+	ss.s.loopOnce.Do(func() { close(ss.s.inLoop) })
 	select {
 	case req := <-ss.s.reqCh:
 		return req, nil
@@ -822,6 +842,54 @@ func (w *world) stopFollower() {
 	w.fUp, w.fPart, w.fReal = false, nil, nil
 	w.partMu.Unlock()
 	_ = part.Close()
+}
+
+// swapFollowerPartition: the follower destroys its log for this family and leader and re-creates it empty (what
+// writeAheadLog.destroy does to a drained log of an old family, or a WAL drop + re-create: Stop, Close, remove the
+// directory; the next request creates a new partition) while the process and every open replica stream live on.
+// The handler of an open stream keeps the partition object it resolved when the stream was opened.
+func (w *world) swapFollowerPartition() error {
+	if !w.fUp {
+		return nil
+	}
+	w.releaseParkedPut() // nothing may be inside the old queue when it is unmapped
+	w.fMu.Lock()
+	defer w.fMu.Unlock()
+	w.partMu.Lock()
+	old := w.fPart
+	w.partMu.Unlock()
+	old.Stop()
+	_ = old.Close()
+	if err := os.RemoveAll(w.followerDir); err != nil {
+		return err
+	}
+	q, err := queue.NewFanOutQueue(w.followerDir, pageSize)
+	if err != nil {
+		return err
+	}
+	wrapped := &faultFanOut{FanOutQueue: q, q: &faultQueue{Queue: q.Queue(), w: w, failPuts: &w.failPuts, putErrs: &w.putErrs}}
+	part := replica.NewPartition(w.ctx, w.shard, w.family, followerID, wrapped, nil, nil)
+	w.partMu.Lock()
+	w.fReal, w.fPart = q, part
+	w.partMu.Unlock()
+	return nil
+}
+
+// openStreams returns the number of streams whose handler is still running.
+func (t *transport) openStreams() int {
+	t.mu.Lock()
+	defer t.mu.Unlock()
+	n := 0
+	for _, s := range t.streams {
+		select {
+		case <-s.serverDone:
+		default:
+			if !s.isBroken() {
+				n++
+			}
+		}
+	}
+	return n
 }
 
 func (w *world) close() {
